@@ -72,7 +72,6 @@ Proof.
   unfold bound_response_time.
   rewrite (search_ext_gen sbf1 st1 sbf2 st2 bw1 bw2 dbg limit Hsbf Hst Hbw).
   apply rbind_ext. intros L. cbv zeta.
-  destruct (existsb (fun d => d =? 0) (steps (L + 1))); [reflexivity|].
   f_equal. apply map_ext. intros off. apply swo_ext_gen; [exact Hst|]. intros r. apply Hrhs.
 Qed.
 
@@ -457,8 +456,7 @@ Section BusyWindow.
     fifo_rta dbg total steps limit = ROk (maxN (map (fun A => total (A + 1) - A) (map (fun d => d - 1) (steps L)))).
   Proof.
     intros steps Hsteps dbg limit L E. unfold fifo_rta. rewrite E. cbn [rbind].
-    unfold offsets_of_steps. rewrite existsb_false_intro.
-    2:{ intros d Hd. apply Hsteps in Hd. destruct (N.eqb_spec d 0); [lia|reflexivity]. }
+    unfold offsets_of_steps. rewrite filter_pos_id by (intros d Hd; apply Hsteps in Hd; lia).
     rewrite (existsb_false_intro (fun A => total (A + 1) <? A)); [reflexivity|].
     intros A HA. apply in_map_iff in HA. destruct HA as [d [<- Hd]]. apply Hsteps in Hd.
     destruct (bw_below dbg limit L E (d - 1) ltac:(lia)) as [H _].
@@ -491,8 +489,7 @@ Section EsFifo.
     pose proof (bw_below total total_mono total_arrives dbg limit L E) as Hbelow.
     assert (Hstep1 : In 1 (steps L)).
     { apply steps_ok. change (1 - 1) with 0. rewrite total0. lia. }
-    cbv zeta. rewrite existsb_false_intro.
-    2:{ intros d Hd. apply Hsteps in Hd. destruct (N.eqb_spec d 0); [lia|reflexivity]. }
+    cbv zeta. rewrite filter_pos_id by (intros d Hd; apply Hsteps in Hd; lia).
     (* every event-source search succeeds *)
     rewrite (map_ext_in _ (fun A => ROk (total (A + 1) - A))).
     2:{ intros A HA. apply in_map_iff in HA. destruct HA as [d [<- Hd]]. apply steps_ok in Hd.
@@ -697,8 +694,8 @@ Section NpEdfTask.
         + cbn [map all_some]. rewrite E. unfold edf_other_offsets.
           destruct (N.eqb_spec L 0) as [|_]; [lia|]. rewrite Hd.
           replace (L + D - D) with L by lia. unfold offsets_of_steps.
-          rewrite existsb_false_intro; [reflexivity|].
-          intros d Hin. apply Hst in Hin. destruct (N.eqb_spec d 0); [lia|reflexivity].
+          rewrite filter_pos_id; [reflexivity|].
+          intros d Hin. apply Hst in Hin. lia.
         + intros A. rewrite kmerge_cons, In_merge, Hos, map_map, in_map_iff. split.
           * intros [[d [HdA Hin]]|[HA [o' [Hin Hlt]]]].
             -- apply Hst in Hin. destruct Hin as (H1 & H2 & H3).
@@ -709,8 +706,7 @@ Section NpEdfTask.
             -- left. exists (A + 1). split; [lia|]. apply Hst. replace (A + 1 - 1) with A by lia. lia.
             -- right. split; [exact HA|]. exists o'. split; assumption. }
     destruct Hoth as [os [E Hos]]. unfold edf_search_space. rewrite E.
-    unfold offsets_of_steps. rewrite existsb_false_intro.
-    2:{ intros d Hin. apply asteps_ok in Hin. destruct (N.eqb_spec d 0); [lia|reflexivity]. }
+    unfold offsets_of_steps. rewrite filter_pos_id by (intros d Hin; apply asteps_ok in Hin; lia).
     eexists. split; [reflexivity|]. intros A.
     rewrite In_dedup, In_merge, Hos, in_map_iff. unfold some_step. split.
     - intros [[HA Ho]|[d [HdA Hin]]]; [tauto|].
